@@ -187,6 +187,11 @@ fn case_c01(ctx: &mut Ctx, r: &mut Rng) {
 
 /// `one`: a single entry point per case (small cases for the coverage-guided runs).
 fn case_c01_n(ctx: &mut Ctx, r: &mut Rng, one: bool) {
+    if !one && r.chance(1, 8) {
+        // clients built directly on the library's own sinks: the whole line, read from the returned metric
+        case_c04_real_sinks(ctx, r);
+        return;
+    }
     let allow_dirty = r.chance(1, 3);
     // (a quarter of the clients carry default tags / a default container id - also delimiter-laden ones, which the C04
     // check, judged on delimiter-free strings, never uses)
@@ -890,7 +895,78 @@ fn case_c04(ctx: &mut Ctx, r: &mut Rng) {
     case_c04_n(ctx, r, false)
 }
 
+/// Clients built DIRECTLY on the library's own sinks (what a client sends must not depend on what it is built on):
+/// Unix and UDP datagram sinks (plain and buffered) with a live receiver, spy sinks, the nop sink, each also behind a
+/// queuing sink. The line is read from the returned metric (plain and tagged forms).
+fn case_c04_real_sinks(ctx: &mut Ctx, r: &mut Rng) {
+    use cadence::{BufferedSpyMetricSink, BufferedUdpMetricSink, BufferedUnixMetricSink, NopMetricSink, QueuingMetricSink, SpyMetricSink, UdpMetricSink, UnixMetricSink};
+    use std::net::UdpSocket;
+    use std::os::unix::net::UnixDatagram;
+    static N: std::sync::atomic::AtomicU64 = std::sync::atomic::AtomicU64::new(0);
+    let (mut cfg, _p) = gen_client_cfg(r, false, true);
+    // (datagram-sized strings: nothing of several KiB)
+    cfg.prefix_raw.truncate(cfg.prefix_raw.char_indices().nth(40).map(|(i, _)| i).unwrap_or(cfg.prefix_raw.len()));
+    let path = std::path::PathBuf::from(format!("/var/tmp/cvh-fmt-{}-{}.sock", std::process::id(), N.fetch_add(1, std::sync::atomic::Ordering::Relaxed)));
+    let _ = std::fs::remove_file(&path);
+    let unix_rx = UnixDatagram::bind(&path).expect("bind unix receiver");
+    unix_rx.set_nonblocking(true).unwrap();
+    let udp_rx = UdpSocket::bind("127.0.0.1:0").unwrap();
+    udp_rx.set_nonblocking(true).unwrap();
+    let udp_to = udp_rx.local_addr().unwrap();
+    let mk_udp = || UdpSocket::bind("127.0.0.1:0").unwrap();
+    let kind = r.below(14);
+    let through_queue = kind >= 7;
+    let label = ["UnixMetricSink", "BufferedUnixMetricSink", "UdpMetricSink", "BufferedUdpMetricSink", "SpyMetricSink", "BufferedSpyMetricSink", "NopMetricSink"][(kind % 7) as usize];
+    let mut keep: Vec<Box<dyn std::any::Any>> = Vec::new();
+    let client = match (kind % 7, through_queue) {
+        (0, false) => build_client_on(&cfg, UnixMetricSink::from(&path, UnixDatagram::unbound().unwrap()), None),
+        (0, true) => build_client_on(&cfg, QueuingMetricSink::from(UnixMetricSink::from(&path, UnixDatagram::unbound().unwrap())), None),
+        (1, false) => build_client_on(&cfg, BufferedUnixMetricSink::with_capacity(&path, UnixDatagram::unbound().unwrap(), 64), None),
+        (1, true) => build_client_on(&cfg, QueuingMetricSink::with_capacity(BufferedUnixMetricSink::from(&path, UnixDatagram::unbound().unwrap()), 64), None),
+        (2, false) => build_client_on(&cfg, UdpMetricSink::from(udp_to, mk_udp()).unwrap(), None),
+        (2, true) => build_client_on(&cfg, QueuingMetricSink::from(UdpMetricSink::from(udp_to, mk_udp()).unwrap()), None),
+        (3, false) => build_client_on(&cfg, BufferedUdpMetricSink::with_capacity(udp_to, mk_udp(), 64).unwrap(), None),
+        (3, true) => build_client_on(&cfg, QueuingMetricSink::from(BufferedUdpMetricSink::from(udp_to, mk_udp()).unwrap()), None),
+        (4, q) => {
+            let (rx, s) = SpyMetricSink::new();
+            keep.push(Box::new(rx));
+            if q { build_client_on(&cfg, QueuingMetricSink::from(s), None) } else { build_client_on(&cfg, s, None) }
+        }
+        (5, q) => {
+            let (rx, s) = BufferedSpyMetricSink::new();
+            keep.push(Box::new(rx));
+            if q { build_client_on(&cfg, QueuingMetricSink::from(s), None) } else { build_client_on(&cfg, s, None) }
+        }
+        (_, false) => build_client_on(&cfg, NopMetricSink, None),
+        (_, true) => build_client_on(&cfg, QueuingMetricSink::from(NopMetricSink), None),
+    };
+    ctx.rep.obs(&format!("clients_built_directly_on_{}{}", label, if through_queue { "_behind_a_queuing_sink" } else { "" }), 1);
+    let eps = all_entry_points();
+    let mut buf = [0u8; 65536];
+    for _ in 0..24 {
+        let (k, tt) = *r.pick(&eps);
+        if tt == "user:Err" || tt.starts_with("Vec<") {
+            continue;
+        }
+        let val = gen_val(r, k, tt, false, true);
+        let form = *r.pick(&[Form::Plain, Form::Tagged]);
+        let mask = (r.below(16) as u8) & !1;
+        let decos = gen_decos(r, mask, false, true);
+        let sp = spec(k, val, "k", form, decos);
+        check_c04_call_on(ctx, &client, &cfg, None, &sp, false);
+        // keep the receive queues empty (a Unix datagram socket holds about ten)
+        while unix_rx.recv(&mut buf).is_ok() {}
+        while udp_rx.recv(&mut buf).is_ok() {}
+    }
+    drop(client);
+    let _ = std::fs::remove_file(&path);
+}
+
 fn case_c04_n(ctx: &mut Ctx, r: &mut Rng, one: bool) {
+    if !one && r.chance(1, 6) {
+        case_c04_real_sinks(ctx, r);
+        return;
+    }
     // C04 is judged on delimiter-free strings, where the tag and container sections are unambiguous - and, for a quarter
     // of the clients, on delimiter-laden ones (':', '|', '#', ',', newlines inside tags and container ids), where the
     // line must END with the expected tag and container sections (no timestamp is requested then)
@@ -928,19 +1004,35 @@ fn case_c04_n(ctx: &mut Ctx, r: &mut Rng, one: bool) {
 }
 
 fn check_c04_call(ctx: &mut Ctx, client: &StatsdClient, cfg: &ClientCfg, sink: &RecSink, sp: &CallSpec, dirty: bool) {
+    check_c04_call_on(ctx, client, cfg, Some(sink), sp, dirty)
+}
+
+/// `sink` None: the client sits directly on one of the library's own sinks; the line is the returned metric's text.
+fn check_c04_call_on(ctx: &mut Ctx, client: &StatsdClient, cfg: &ClientCfg, sink: Option<&RecSink>, sp: &CallSpec, dirty: bool) {
     ctx.rep.eval();
-    let before = sink.emit_count();
+    let before = sink.map(|s| s.emit_count()).unwrap_or(0);
     let exp = match expectation(cfg, sp) {
         Ok(e) => e,
         Err(()) => return,
     };
     let ret = panics::guard(|| call(client, sp));
-    let emitted = sink.emits_from(before);
+    let emitted: Vec<(String, bool)> = match (sink, &ret) {
+        (Some(s), _) => s.emits_from(before),
+        (None, Ok(Ret::Ok(t))) => vec![(t.clone(), true)],
+        _ => vec![],
+    };
     if ret.is_err() || emitted.is_empty() {
         ctx.rep.obs("calls_without_line", 1);
         return;
     }
     let text = &emitted[0].0;
+    if sink.is_none() {
+        // (C01's rule; a C04 run does not report it)
+        match matches_line(&exp, text) {
+            Ok(()) => ctx.rep.obs("lines_of_clients_on_real_sinks_matched_reference", 1),
+            Err(why) => ctx.violation("C01", "R(reference formatter)", "text-differs", format!("client built directly on one of the library's sinks: {}", why), jobj! {"call" => sp.to_json(), "returned" => clip(text, 300), "reference" => clip(&ref_line(&exp), 300)}),
+        }
+    }
     let per_call_tags = sp.decos.iter().filter(|d| matches!(d, Deco::Tag(..) | Deco::TagValue(_))).count();
     let per_call_container = sp.decos.iter().any(|d| matches!(d, Deco::Container(_)));
     let sig = format!(
